@@ -454,6 +454,120 @@ func zipChecks(c *evid.Ctx, evals, nontriv *int64, maxLen int) {
 			}
 		}
 	}
+	bigZips(c, evals, nontriv)
+}
+
+// bigZips: payloads around the sizes at which a (de)compressor works in windows (32 KiB) and at the
+// zip sender's default buffer (64 KiB), with compressible and incompressible record contents, through
+// LogSinkZipPack and through the compression helpers themselves.
+func bigZips(c *evid.Ctx, evals, nontriv *int64) {
+	noise := func(n int, seed uint32) string { // deterministic, incompressible, printable
+		b := make([]byte, n)
+		x := seed*2654435761 + 1
+		for i := range b {
+			x ^= x << 13
+			x ^= x >> 17
+			x ^= x << 5
+			b[i] = byte('!' + x%90)
+		}
+		return string(b)
+	}
+	for _, target := range []int{32767, 32768, 32769, 65535, 65536, 65537, 200000} {
+		for _, kind := range []string{"repetitive", "noise"} {
+			atomic.AddInt64(evals, 1)
+			atomic.AddInt64(nontriv, 1)
+			desc := fmt.Sprintf("LogSinkZipPack with a %s payload of %d bytes", kind, target)
+			func() {
+				defer func() {
+					if r := recover(); r != nil {
+						c.Violation("C03:LogSinkZipPack:big:panic", fmt.Sprintf("%s: panic: %v", desc, r), nil)
+					}
+				}()
+				// records of ~1000 bytes, the last one sized so that the payload has exactly the target length
+				out := gio.NewDataOutputX()
+				var orig []*pack.LogSinkPack
+				for i := 0; out.Size() < target; i++ {
+					l := pack.NewLogSinkPack()
+					l.Category, l.Line, l.Time = "big", int64(i), int64(5000+i)
+					body := func(n int) string {
+						if kind == "noise" {
+							return noise(n, uint32(i+1))
+						}
+						return string(bytes.Repeat([]byte{'r'}, n))
+					}
+					l.Content = body(1000)
+					probe := gio.NewDataOutputX()
+					pack.WritePack(probe, l)
+					if rest := target - int(out.Size()); int(probe.Size()) > rest {
+						// shrink the content so that this record ends exactly at the target (the text
+						// length prefix is 3 bytes for 255..65535 and 1 byte below 254)
+						over := int(probe.Size()) - rest
+						n := 1000 - over
+						if n < 254 {
+							n += 2
+						}
+						if n < 0 {
+							n = 0
+						}
+						l.Content = body(n)
+					}
+					orig = append(orig, l)
+					pack.WritePack(out, l)
+				}
+				raw := append([]byte{}, out.ToByteArray()...)
+				if len(raw) != target {
+					c.Info("bigZips: payload of %d bytes built for the target %d", len(raw), target)
+				}
+				// the helpers themselves
+				zipped, err := compressutil.DoZip(raw)
+				if err != nil {
+					c.Violation("C03:compressutil:DoZip", fmt.Sprintf("%s: DoZip failed: %v", desc, err), nil)
+					return
+				}
+				if un, err := compressutil.UnZip(zipped); err != nil || !bytes.Equal(un, raw) {
+					c.Violation("C03:compressutil:round-trip", fmt.Sprintf("%s (%d bytes exactly): UnZip(DoZip(x)) differs from x at byte %d (error %v)", desc, len(raw), firstDiffB(un, raw), err), nil)
+					return
+				}
+				z := pack.NewLogSinkZipPack()
+				z.Pcode, z.Oid = 9, 8
+				z.RecordCount = len(orig)
+				z.SetRecords(append([]byte{}, raw...), 100)
+				if z.Status != pack.ZIPPED {
+					c.Violation("C03:LogSinkZipPack:threshold", fmt.Sprintf("%s: not compressed although the threshold is 100", desc), nil)
+				}
+				dec, ok := pack.ToPack(pack.ToBytesPack(z)).(*pack.LogSinkZipPack)
+				if !ok {
+					c.Violation("C03:LogSinkZipPack:inner:type", desc+": wrong decoded type", nil)
+					return
+				}
+				got := dec.GetRecords()
+				if len(got) != len(orig) {
+					c.Violation("C03:LogSinkZipPack:inner:count", fmt.Sprintf("%s: %d records returned, %d were put in", desc, len(got), len(orig)), nil)
+					return
+				}
+				for i, l := range orig {
+					want := pack.ToPack(pack.ToBytesPack(l)).(*pack.LogSinkPack)
+					want.Pcode, want.Oid = 9, 8
+					if !bytes.Equal(pack.ToBytesPack(want), pack.ToBytesPack(got[i])) {
+						c.Violation("C03:LogSinkZipPack:inner:content", fmt.Sprintf("%s: record %d of %d differs from the original", desc, i, len(orig)), nil)
+						return
+					}
+				}
+			}()
+		}
+	}
+}
+
+func firstDiffB(a, b []byte) int {
+	for i := 0; i < len(a) && i < len(b); i++ {
+		if a[i] != b[i] {
+			return i
+		}
+	}
+	if len(a) < len(b) {
+		return len(a)
+	}
+	return len(b)
 }
 
 // twoContainers: a container that has been filled must keep returning its records when another
